@@ -390,10 +390,18 @@ def lst_case(is_async, plan, items, loop):
     initB, segsB, finB, _, _ = D.run_listener(is_async, plan, itemsB, loop)
     if initA != initB:
         raise RuntimeError('set-up is not deterministic')
+    tA = [[D.eff_term(e) for e in seg] for seg in segsA]
+    tB = [[D.eff_term(e) for e in seg] for seg in segsB]
+    # run B is normally run A minus the segments of the tagged items: then it is not printed again
+    # (Coq rebuilds it from run A: C15Check.without_bad); any difference is printed in full
+    expectB = None
+    if len(tA) == len(items) + 2:
+        expectB = [tA[0]] + [seg for it, seg in zip(items, tA[1:-1]) if it['tag'] != 'bad'] + [tA[-1]]
+    obsB = 'None' if tB == expectB else '(Some %s)' % clist([clist(seg) for seg in tB])
     term = '(Lst %s %s %s %s %s %s %s %s)' % (
         cbool(is_async), cstr(OWN), initA,
         clist(['(%s, %s)' % (tag_term(i['tag']), D.item_term(i)) for i in items]),
-        D.segs_term(segsA), finA, D.segs_term(segsB), finB)
+        clist([clist(seg) for seg in tA]), finA, obsB, 'None' if finB == finA else '(Some %s)' % finB)
     return term, pubA
 
 
@@ -703,9 +711,7 @@ def run(chk):
     corr_only = []
     new_property_violation = False
     for code, kind, is_async, replay in results:
-        if code == 8:
-            continue        # the counter-slot message is present but nothing was violated
-        if code & 2:
+        if code & 10:
             report_property(chk, code, kind, is_async, replay)
             new_property_violation |= not (code & 8)
         elif code & 4:
@@ -727,7 +733,7 @@ def run(chk):
             finally:
                 loop.close()
             for code, kind, is_async, replay in evaluate(chk, cases2, meta2, 'c15s'):
-                if code & 2 and not code & 8:
+                if code & 10:
                     report_property(chk, code, kind, is_async, replay)
                     new_property_violation = True
         for kind, is_async, replay in corr_only:
@@ -756,8 +762,8 @@ def replay(chk, data):
     rc, out = coqio.eval_print('c15_replay', IMPORTS, '', ['c15_eval %s' % case, 'c15_clauses %s' % case,
                                                            'c15_explain %s' % case])
     print('c15_eval (0 = fine, 1 = model/implementation differ, 2 = property violated on the observation, '
-          '4 = tag not justified, 8 = counter-class message present);')
+          '4 = tag not justified, 8 = a callbacks[sid] lost its id generator);')
     print('c15_clauses = [model=runA; model=runB; segment per item; sentinels delivered; foreign acks / own echoes '
-          'ignored; tagged messages ineffective; tags justified; no counter-class message]')
+          'ignored; tagged messages ineffective; tags justified; no id generator lost; no counter-class message in the scenario]')
     print(out)
     return 1 if '= 0' not in out.split('\n')[0] else 0
